@@ -191,6 +191,33 @@ func TestC13(t *testing.T) {
 			}
 		}
 	}
+	// ---- "the file at the command path" is the file the operating system executes for that path: command paths
+	// that are not in clean form (a symlinked directory followed by "..", a symlink to the binary, "./", "//")
+	// with a decoy at the textually cleaned location
+	{
+		root := filepath.Join(dir, "paths")
+		os.MkdirAll(filepath.Join(root, "a"), 0o755)
+		os.MkdirAll(filepath.Join(root, "b", "sub"), 0o755)
+		real, decoy := script(11), []byte("#!/bin/sh\necho decoy >> "+marker+"\necho '1|1|tcp|127.0.0.1:1234'\nexec sleep 5\n")
+		os.WriteFile(filepath.Join(root, "b", "plugin"), real, 0o755)
+		os.WriteFile(filepath.Join(root, "a", "plugin"), decoy, 0o755)
+		os.Symlink(filepath.Join(root, "b", "sub"), filepath.Join(root, "a", "link"))  // a/link -> b/sub, so a/link/../plugin is b/plugin
+		os.Symlink(filepath.Join(root, "b", "plugin"), filepath.Join(root, "a", "ln")) // a/ln -> b/plugin
+		sum := func(b []byte) []byte { h := sha256.New(); h.Write(b); return h.Sum(nil) }
+		for _, pc := range []struct{ name, path string }{
+			{"symlinked-dir/../plugin", filepath.Join(root, "a", "link") + "/../plugin"},
+			{"symlink to the binary", filepath.Join(root, "a", "ln")},
+			{"dir/./plugin", filepath.Join(root, "b") + "/./plugin"},
+			{"dir//plugin", filepath.Join(root, "b") + "//plugin"},
+			{"dir/sub/../plugin", filepath.Join(root, "b", "sub") + "/../plugin"},
+		} {
+			d := func(s string) string {
+				return fmt.Sprintf("command path %s (executes b/plugin) checksum=%s", pc.name, s)
+			}
+			run(d("of the executed file"), pc.path, sha256.New(), sum(real), true, "")
+			run(d("of the decoy at a/plugin"), pc.path, sha256.New(), sum(decoy), false, "mismatch")
+		}
+	}
 	out.Samples = []any{"file=minimal hash=sha256 checksum=exact", "file=1KiB hash=md5 checksum=bit 7 flipped", "file=minimal hash=sha1 checksum=prefix of 19 bytes"}
 	emit(out)
 }
